@@ -16,6 +16,8 @@ func init() {
 	register("C12", "other", func(p *Program, r *Report) {
 		runC12(p, r)
 		checkBoundsProven(p, r, "C12.B1", "urlset.go")
+		checkLoopsMakeProgress(p, r, "C12.B2", "urlset.go")
+		checkScansStartAtZero(p, r, "C12.B3", "urlset.go")
 	})
 }
 
